@@ -26,6 +26,19 @@ NPROC = os.cpu_count() or 4
 os.environ.setdefault("MALLOC_PERTURB_", "165")
 
 
+def _limits_for(argv):
+    """Non-sanitizer harness processes get an 8 GB address-space limit: a library that walks freed memory can otherwise try to allocate
+    tens of gigabytes (seen with a seeded use-after-free) and stall the whole check; with the limit it fails fast with bad_alloc."""
+    exe = os.path.basename(argv[0])
+    if "asan" in exe or exe in ("sh", "valgrind", "bash") or exe.startswith("python"):
+        return None
+    import resource
+
+    def fn():
+        resource.setrlimit(resource.RLIMIT_AS, (8 << 30, 8 << 30))
+    return fn
+
+
 def log(*a):
     print(*a, file=sys.stderr, flush=True)
 
@@ -106,7 +119,7 @@ def run_parallel(jobs, timeout):
             env = dict(os.environ)
             env.update(j.get("env", {}))
             errf = open(os.path.join(j["faildir"], "stderr.txt"), "w")
-            p = subprocess.Popen(j["argv"], cwd=ROOT, stdout=subprocess.DEVNULL, stderr=errf, env=env)
+            p = subprocess.Popen(j["argv"], cwd=ROOT, stdout=subprocess.DEVNULL, stderr=errf, env=env, preexec_fn=_limits_for(j["argv"]))
             running.append((j, p, errf))
         time.sleep(0.05)
         still = []
@@ -179,9 +192,13 @@ def run_check(chk, tier, seed, replay=None):
     if replay:
         rcs = []
         for argv in chk["replay_argv"](replay):
-            r = subprocess.run(argv, cwd=ROOT, stdout=subprocess.DEVNULL, stderr=subprocess.PIPE, text=True)
-            sys.stderr.write(r.stderr[-3000:])
-            rcs.append(r.returncode)
+            try:
+                r = subprocess.run(argv, cwd=ROOT, stdout=subprocess.DEVNULL, stderr=subprocess.PIPE, text=True, timeout=600, preexec_fn=_limits_for(argv))
+                sys.stderr.write(r.stderr[-3000:])
+                rcs.append(r.returncode)
+            except subprocess.TimeoutExpired:
+                log("replay did not terminate within 10 minutes")
+                rcs.append(1)
         bad = any(rc in (1, 3) or rc < 0 or rc > 3 for rc in rcs)
         if bad:
             print(f"VIOLATION property={pid} replay={replay}")
@@ -205,8 +222,12 @@ def run_check(chk, tier, seed, replay=None):
             f = os.path.join(rg, fn)
             n_regress += 1
             for argv in chk["replay_argv"](f):
-                r = subprocess.run(argv, cwd=ROOT, stdout=subprocess.DEVNULL, stderr=subprocess.DEVNULL)
-                if r.returncode != 0:
+                try:
+                    r = subprocess.run(argv, cwd=ROOT, stdout=subprocess.DEVNULL, stderr=subprocess.DEVNULL, timeout=300, preexec_fn=_limits_for(argv))
+                    failed_again = r.returncode not in (0, 3)      # 3 = only a known-finding cell deviates, which the main run accounts for
+                except subprocess.TimeoutExpired:
+                    failed_again = True
+                if failed_again:
                     regress_hits.append((f"saved counterexample {fn} fails again", f))
                     break
     jobs = chk["workers"](tier, seed, work)
@@ -259,9 +280,12 @@ def run_check(chk, tier, seed, replay=None):
         for _ in range(3):
             bad = False
             for argv in chk["replay_argv"](dest):
-                r = subprocess.run(argv, cwd=ROOT, stdout=subprocess.DEVNULL, stderr=subprocess.PIPE, text=True)
-                if r.returncode != 0:
-                    bad = True
+                try:
+                    r = subprocess.run(argv, cwd=ROOT, stdout=subprocess.DEVNULL, stderr=subprocess.DEVNULL, timeout=300, preexec_fn=_limits_for(argv))
+                    if r.returncode != 0:
+                        bad = True
+                except subprocess.TimeoutExpired:
+                    bad = True      # a saved case replays in milliseconds on a healthy tree; not terminating in 5 minutes reproduces a failure
             ok += 1 if bad else 0
         if ok == 3:
             confirmed.append((desc, dest))
